@@ -104,6 +104,7 @@ type lgen struct {
 	r   *core.RNG
 	n   int
 	odd bool // the odd stream: inline block comments, several declarations on one line, multi-line trailing blocks
+	split bool // names of one declaration on several lines (known finding name_on_continuation_line)
 }
 
 func (g *lgen) name(prefix string) string {
@@ -111,7 +112,7 @@ func (g *lgen) name(prefix string) string {
 	return fmt.Sprintf("%s%d", prefix, g.n)
 }
 
-var docWords = []string{" is a thing", " does something", " holds the state", " plain words", " Deprecated: use the other one", " TODO(x): fix"}
+var docWords = []string{" is a thing", " see go:generate below", " does something", " holds the state", " plain words", " Deprecated: use the other one", " TODO(x): fix"}
 var tagLines = []string{" +gengo:deepcopy", " +gengo:enum=false", " @deprecated use X", " +k8s:openapi-gen=true", " +foo bar baz", " +x=a=b", " +", " @",
 	" + spaced", "+nospace=1", "  +indented=2", " +gengo:deepcopy=a", " +gengo:deepcopy=b", " @foo", " +ключ=значение"}
 var oddLines = []string{"", "go:generate echo x", " go:generate spaced", "nolint:foo", "\tTabbed +x", " trailing spaces   ", " ünïcödé ✓ +not=tag", "  two spaces",
@@ -180,7 +181,7 @@ var basicTypes = []string{"int", "string", "[]byte", "*int", "map[string]int", "
 
 func (g *lgen) fields(depth int, iface bool) []Field {
 	r := g.r
-	n := 1 + r.Intn(5)
+	n := 1 + r.Intn(4)
 	var fs []Field
 	embedded := false
 	for i := 0; i < n; i++ {
@@ -210,6 +211,7 @@ func (g *lgen) fields(depth int, iface bool) []Field {
 			if r.Chance(15) {
 				f.Tag = `json:"x,omitempty"`
 			}
+			f.Split = g.split && k > 1 && r.Chance(50)
 		}
 		nm := f.Type
 		if len(f.Names) > 0 {
@@ -278,6 +280,7 @@ func (g *lgen) spec(kind string, grouped bool) Spec {
 		} else {
 			s.Type = "int"
 		}
+		s.Split = g.split && k > 1 && r.Chance(50)
 	}
 	g.around(s.Names[0], &s.Doc, &s.Trail, &s.Det, &s.Blank, &s.Inline)
 	if !grouped {
@@ -311,7 +314,7 @@ func (g *lgen) decl(kind string, local bool) Decl {
 	}
 	d.Grouped = r.Chance(45)
 	if d.Grouped {
-		n := 1 + r.Intn(4)
+		n := 1 + r.Intn(3)
 		for i := 0; i < n; i++ {
 			s := g.spec(kind, true)
 			if g.odd && i > 0 && !(s.TK == "struct" && !s.OneLine) && s.TK != "iface" && r.Chance(12) {
@@ -347,7 +350,7 @@ func (g *lgen) file(first bool) File {
 		d := g.decl("import", false)
 		f.Decls = append(f.Decls, d)
 	}
-	n := 2 + r.Intn(5)
+	n := 2 + r.Intn(4)
 	for i := 0; i < n; i++ {
 		kind := core.Pick(r, []string{"type", "type", "type", "const", "var", "func"})
 		d := g.decl(kind, false)
@@ -359,8 +362,8 @@ func (g *lgen) file(first bool) File {
 	return f
 }
 
-func genLayout(r *core.RNG, odd bool) json.RawMessage {
-	g := &lgen{r: r, odd: odd}
+func genLayout(r *core.RNG, odd, split bool) json.RawMessage {
+	g := &lgen{r: r, odd: odd, split: split}
 	files := []File{g.file(true)}
 	if r.Chance(30) {
 		files = append(files, g.file(false))
@@ -405,8 +408,10 @@ func fixedLayouts() []json.RawMessage {
 		// two files with the same line numbers
 		layoutInput(
 			File{Decls: []Decl{{Kind: "type", Blank: 1, Doc: lc(" doc A0"), Specs: []Spec{{Names: []string{"A0"}, TK: "basic", Type: "int", Trail: lc(" trailing A0")}}}}},
-			File{Decls: []Decl{{Kind: "type", Blank: 1, Specs: []Spec{{Names: []string{"B0"}, TK: "basic", Type: "int"}}}}},
+			File{Decls: []Decl{{Kind: "type", Blank: 2, Specs: []Spec{{Names: []string{"B0"}, TK: "basic", Type: "int"}}}}},
 		),
+		// names on a continuation line (known finding name_on_continuation_line)
+		layoutInput(structOf(Field{Names: []string{"F", "G"}, Type: "int", Split: true, Doc: lc(" doc FG"), Trail: lc(" trailing FG")}, Field{Names: []string{"H"}, Type: "int"})),
 		// import with a trailing comment, function with parameters and local declarations
 		layoutInput(File{Decls: []Decl{
 			{Kind: "import", Blank: 1, Specs: []Spec{{Names: []string{"_"}, Path: "unsafe", Trail: lc(" for linkname")}}},
@@ -442,10 +447,14 @@ func (prop) Generate(r *core.RNG, tier string) []json.RawMessage {
 	var out []json.RawMessage
 	out = append(out, fixedTags()...)
 	out = append(out, fixedLayouts()...)
-	for i := 0; i < nLayouts; i++ {
-		out = append(out, genLayout(r.Fork(), i%8 == 7))
-	}
+	// layouts are spread evenly among the tag cases so that every Coq shard gets its share
+	per := nTags / nLayouts
+	li := 0
 	for i := 0; i < nTags; i++ {
+		if i%per == 0 && li < nLayouts {
+			out = append(out, genLayout(r.Fork(), li%8 == 7, li%32 == 15))
+			li++
+		}
 		if i%10 == 9 {
 			out = append(out, genTagsMalformed(r))
 		} else {
